@@ -38,7 +38,7 @@ AXES = {'fmt': ['v1', 'v2'], 'n_ap': [3, 1], 'n_models': [4, 2, 6], 'perm': ['ro
 
 
 def setup(tier, seed):
-    cfgs = [c for c in deviation_bounded(AXES, 2 if tier == 'quick' else 3)]
+    cfgs = [c for c in deviation_bounded(AXES, 2 if tier == 'quick' else 4)]
     # scale: a hundred models and more (blocks, row indices, names filling the column), planted at the first, last and the models around position 64
     default = {k: v[0] for k, v in AXES.items()}
     for fmt in ('v1', 'v2'):
@@ -52,7 +52,7 @@ def cases(ctx):
 
 
 def evidence_extra(ctx):
-    return {'bounds': 'deviation bound %d over %s; x every model x 3 A_V0 x 3 distances/scales' % (2 if ctx['tier'] == 'quick' else 3, {k: len(v) for k, v in AXES.items()}),
+    return {'bounds': 'deviation bound %d over %s; x every model x 3 A_V0 x 3 distances/scales' % (2 if ctx['tier'] == 'quick' else 4, {k: len(v) for k, v in AXES.items()}),
             'alphabet_digest': 'seed=%d' % ctx['seed']}
 
 
